@@ -12,6 +12,7 @@ PROP = {
              "with a state change and has < N observations or spans < the stable period under every reading); distinct = distinct "
              "(settings, script, latencies)"),
     "assumptions": [
+        "the generated cool-downs include values that are no multiple of a round unit (31 s, 45 s, 59 s, 100 s, 1.5 s) next to 0, 1-5 s, 20 s, 60 s and the shipped 300 s",
         "the gateway's log level (LOG_LEVEL: off in three cases of eight, else error / info / debug / trace; what is logged is thrown away, what a log statement does to build its arguments happens) is a generated part of every case of TestWiring: no answer may depend on it; a failing case reports its level",
         "unit TestWiringThroughManager: the watcher is the one the gateway builds itself - a policy-mode routing.HandlingDataManager is set up per case (NewHandlingDataManager + Setup, as main() does; each gets a net/http default mux of its own because Setup registers the metrics route there), its watcher runs on the process clock and process context of the context manager; the process clock is the case's virtual clock (for the watcher goroutine, recognised by its call stack, Sleep moves time at once and After timers are fired earliest-first by a driver once the watcher waits; other goroutines are parked on the same time line); in three cases of four the shutdown signal (the context manager's context is cancelled, as SIGTERM does) arrives during a generated observation - main() does not exit on it, so the reactions must stay those of the statement, cool-down included; judged like TestWiring (temporal conditions + differential with a bare watcher)",
         "unit TestWiringWithProxyFaults: the management calls (PUT) of generated reaction attempts are answered 503; a refused attempt counts as the watcher's reaction at the instant of its first call (direction: the opposite of the attempt before); the process clock is the case's virtual clock in a variant that parks sleepers of other goroutines until the watcher has moved time past their wake-up, so background work runs inside the case's time line; the policies may change only right after a qualifying run of observations (same reactions, at the same observations, as a bare watcher on the same script)",
